@@ -428,7 +428,7 @@ def run_property(modname, tier='quick', seed=0, rebaseline=False, only=None, can
     bl0 = baseline().get(pid, {})
     for c in under:
         fr = verify_function(reg, c, timeout_ms)
-        if fr.error and fr.error[0] == 'unsupported' and not rebaseline:
+        if fr.error and fr.error[0] == 'unsupported' and not rebaseline and os.environ.get('LIANVC_NO_LENIENT') != '1':
             # the function was inside the subset when the baseline was recorded and its source has changed since: retry with
             # the weakest contract for calls that have none, so that the obligations are still generated and decided
             b = bl0.get(c.name)
